@@ -1,9 +1,11 @@
 /-
-Lemmas/SizeAscii.lean — where the characters of an FCC string come from: the string value of a parsed operand
-consists of characters of the source line (or the blank `parse_line` puts between operands and comment), and
-`resolve_symbols` never produces a string.  Hence: if every character of every line (of the program and of the
-INCLUDEd files) is below 256 — in particular for ASCII input, the modelled domain — so is every character of
-every string operand.
+Lemmas/SizeAscii.lean — the characters of an FCC string.
+(1) Every string value `create_from_str` builds is made of characters below 256 (batch B2, item 6: `StringValue`
+raises on wider ones and the cascade goes on; `PV (.str cs)` in SizeValue.lean says so), `resolve_symbols` never
+produces a string, so the string operand of every statement — parsed, expanded, final — is narrow, for EVERY input
+(`createOperand_str_narrow`, `parseLine_narrow`, `expand_narrow`, `Stages.operand_narrow`).
+(2) Where the characters come from: the string value of a parsed operand consists of characters of the source line
+(or the blank `parse_line` puts between operands and comment) (`parseLine_str_mem`; independent of (1)).
 -/
 import CoCoVerif.Lemmas.SizeFix
 
@@ -319,32 +321,42 @@ theorem expand_forall_of {Q : Str → Prop} {P : Stmt → Prop}
 /-- all characters are below 256 -/
 def NarrowLine (l : Str) : Prop := ∀ c ∈ l, c.toNat < 256
 
-/-- the string operand of a statement parsed from a narrow line is narrow -/
-theorem parseLine_narrow {l : Str} {s : Stmt} (hl : NarrowLine l) (h : parseLine l = .ok (some s)) :
-    ∀ x, s.operand.value = .str x → ∀ c ∈ x, c.toNat < 256 := by
-  intro x hx c hc
-  rcases parseLine_str_mem h hx c hc with h' | h'
-  · exact hl c h'
-  · subst h'; decide
+/-! ### every string operand is narrow, whatever the input -/
 
-/-- narrow input (the program and every host file): every string operand that enters the back end is narrow -/
+/-- a string operand value `createOperand` builds is made of characters below 256 -/
+theorem createOperand_str_narrow {s : Str} {row : InstrRow} {o : Operand} {x : Str}
+    (hrow : row ∈ Gen.instructions) (h : createOperand s row = .ok o) (hx : o.value = .str x) :
+    ∀ c ∈ x, c.toNat < 256 := by
+  obtain ⟨_, _, _, _, f5, _, _, _⟩ := rowFacts_multi (rowFacts_all row hrow)
+  have := (createOperand_shape0 h f5).pv
+  rw [hx] at this
+  exact this
+
+/-- the string operand of a parsed statement is narrow (no hypothesis on the line) -/
+theorem parseLine_narrow {l : Str} {s : Stmt} (h : parseLine l = .ok (some s)) :
+    ∀ x, s.operand.value = .str x → ∀ c ∈ x, c.toNat < 256 := by
+  intro x hx
+  obtain ⟨hrow, txt, hcr⟩ := parseLine_parsed h
+  exact createOperand_str_narrow hrow hcr hx
+
+/-- every string operand that enters the back end is narrow (no hypothesis on the program or the host files) -/
 theorem expand_narrow {fs : Files} {lines : List Str} {parsed ss0 : List Stmt}
-    (hl : ∀ l ∈ lines, NarrowLine l) (hfs : ∀ f ∈ fs, ∀ l ∈ f.2, NarrowLine l)
     (hp : parseLines lines = .ok parsed) (he : expand fs 64 [] parsed = .ok ss0) :
     ∀ s ∈ ss0, ∀ x, s.operand.value = .str x → ∀ c ∈ x, c.toNat < 256 :=
-  expand_forall_of (Q := NarrowLine) (P := fun s => ∀ x, s.operand.value = .str x → ∀ c ∈ x, c.toNat < 256)
-    (fun _ _ hq h => parseLine_narrow hq h) fs hfs 64 [] parsed ss0
-    (parseLines_forall_of (fun _ _ hq h => parseLine_narrow hq h) lines parsed hl hp) he
+  expand_forall_of (Q := fun _ => True) (P := fun s => ∀ x, s.operand.value = .str x → ∀ c ∈ x, c.toNat < 256)
+    (fun _ _ _ h => parseLine_narrow h) fs (fun _ _ _ _ => trivial) 64 [] parsed ss0
+    (parseLines_forall_of (Q := fun _ => True) (fun _ _ _ h => parseLine_narrow h) lines parsed
+      (fun _ _ => trivial) hp) he
 
 /-- ... and so is the string operand of every final statement -/
 theorem Stages.operand_narrow {fs : Files} {lines : List Str} {a : Assembly} (st : Stages fs lines a)
-    (hl : ∀ l ∈ lines, NarrowLine l) (hfs : ∀ f ∈ fs, ∀ l ∈ f.2, NarrowLine l)
     {i : Nat} {s : Stmt} (hs : a.stmts[i]? = some s) :
     ∀ x, s.operand.value = .str x → ∀ c ∈ x, c.toNat < 256 := by
   obtain ⟨tr⟩ := st.trace hs
   intro x hx
   rw [tr.operand_eq] at hx
   have h0 := resolveOperand_str tr.hres hx
-  exact expand_narrow hl hfs st.hparse st.hexpand tr.s0 (List.mem_of_getElem? tr.h0) x h0
+  obtain ⟨txt, hcr⟩ := tr.parsed.2
+  exact createOperand_str_narrow tr.parsed.1 hcr h0
 
 end CoCo.Asm
